@@ -33,6 +33,7 @@ def handleBuiltin (st : St) (b : String) (parts : List (List String)) : String :
 def handle (st : St) (line : String) : St × Option String :=
   let parts := splitBar line
   let tidOf : Option String := match parts with | (_ :: tid :: _) :: _ => some tid | _ => none
+  if line.startsWith "BH " then (st, some (opBufferHistory st parts)) else
   if line.startsWith "J" then
     (match parts with
      | ("JV" :: vid :: toks) :: _ => ({ st with jtoks := st.jtoks.insert vid toks }, none)
